@@ -3,5 +3,5 @@ let machines : (string * Base.machine) list = [
   "event", Event.machine;
   "mutex", Mutex.machine;
   "semaphore", SemaphoreSpec.machine;
-  "mpmc", Mpmc.machine;
+  "mpmc", MpmcSpec.machine;
 ]
